@@ -125,6 +125,13 @@ func (g *gen) topImported(u []int) *Node {
 		return g.leaf(u)
 	}
 	inv := g.r.Chance(40)
+	if g.r.Chance(15) {
+		// two unscanned imported strings cut at an arbitrary BYTE position (possibly inside a UTF-8 sequence): the
+		// concatenation must still have the units of the two halves, each decoded on its own
+		b := g.goBytes(u, inv)
+		i := g.r.Intn(len(b) + 1)
+		return &Node{K: "cat", A: &Node{K: "imp", U: b[:i]}, B: &Node{K: "imp", U: b[i:]}}
+	}
 	switch g.r.Pick(3, 3, 3, 1) {
 	case 0:
 		return &Node{K: "imp", U: g.goBytes(u, inv)}
@@ -268,6 +275,28 @@ func (g *gen) leaf(u []int) *Node {
 			}
 		}
 	}
+}
+
+// caseNeutral: every non-ASCII unit is a surrogate or one of the alphabet's characters, none of which has a case
+// mapping (a one-unit mutation may have produced a cased letter such as U+0100 or U+00D6: the model's case map is
+// the ASCII one, so such strings are not sent through toUpperCase/toLowerCase)
+func caseNeutral(u []int) bool {
+	for _, c := range u {
+		if c < 0x80 || c >= 0xD800 && c <= 0xDFFF {
+			continue
+		}
+		ok := false
+		for _, a := range alphaLatin1 {
+			ok = ok || a == c
+		}
+		for _, a := range alphaBMP {
+			ok = ok || a == c
+		}
+		if !ok {
+			return false
+		}
+	}
+	return true
 }
 
 func isLowerASCII(c int) bool { return c >= 'a' && c <= 'z' }
@@ -431,7 +460,7 @@ func (g *gen) derive(u []int, d int) *Node {
 			}
 		case 9: // case mapping (ASCII letters only; the non-ASCII alphabet has no case mappings)
 			up := g.r.Bool()
-			ok := true
+			ok := caseNeutral(u)
 			for _, c := range u {
 				if up && isLowerASCII(c) || !up && isUpperASCII(c) {
 					ok = false
